@@ -8,6 +8,7 @@ CONSTANTS MaxVer = 1000000
           PickNewer = TRUE
           SavepointTwoPhase = FALSE
           SavepointPreFlush = TRUE
+          RepairSync = TRUE
 INVARIANT TraceInv
 POSTCONDITION TraceAccepted
 CHECK_DEADLOCK FALSE
